@@ -1,7 +1,7 @@
 (* C08 - Indexing and pointwise evaluation agree with dense indexing.
    Only theorem statements closed by `exact`, each followed by Print Assumptions. *)
 From Coq Require Import List Arith ZArith.
-From TT Require Import RingSig SumN Mat Dense Core Arith Reduce Struct Index CoreP ArithP StructP ReduceDimsP IndexP GetitemP.
+From TT Require Import RingSig SumN Mat Dense Core Arith Reduce Struct Index CoreP ArithP StructP ReduceDimsP IndexP GetitemP GetitemNoneP.
 Import ListNotations.
 
 Section C08.
@@ -60,6 +60,15 @@ Theorem C08_reduce_dims_none_kept (x : tt R) excl : wf x -> nkept 0 x excl = 0%n
   exists c, reduce_dims x excl = [c] /\ nn c = 1%nat /\ e3 c 0%nat 0%nat 0%nat = entry x (repeat O (length x)).
 Proof. exact (reduce_dims_none_kept x excl). Qed.
 
+(* THE COMPOSITE STATEMENT with None (newaxis) anywhere in the tuple: full tuples of integers, slices and None.  x[index] IS the call on the
+   tensor with an identity core of mode size 1 inserted at every None and a full slice in that place (gi_unsq: the two slicing loops are
+   equal step by step), that tensor has the entries of x (chain_unsq), and the dense index maps agree (unsq_specs) - so the result holds
+   exactly the entries the dense expression selects, the inserted axes included *)
+Theorem C08_getitem_with_none (x : tt R) ix shp g :
+  wf x -> noell ix = true -> nonnone ix = length x -> dgi ix (shape x) = Some (shp, g) -> existsb is_slice_or_none ix = true ->
+  exists y, getitem_tuple x ix = GT y /\ forall idx', length idx' = length shp -> entry y idx' = entry x (g idx').
+Proof. exact (getitem_with_none x ix shp g). Qed.
+
 (* a leading / trailing Ellipsis is exactly the tuple with the missing full slices written out: the composite theorem applies to
    the expanded tuple (the tensor branch expands no Ellipsis elsewhere; two of them are rejected, C18) *)
 Theorem C08_getitem_leading_ellipsis (x : tt R) (t : list ixitem) : forallb (fun it => negb (is_ell it)) t = true ->
@@ -79,5 +88,6 @@ Print Assumptions C08_norm_int_in_range.
 Print Assumptions C08_getitem_int_slice_full.
 Print Assumptions C08_getitem_all_int.
 Print Assumptions C08_reduce_dims_none_kept.
+Print Assumptions C08_getitem_with_none.
 Print Assumptions C08_getitem_leading_ellipsis.
 Print Assumptions C08_getitem_trailing_ellipsis.
